@@ -480,3 +480,150 @@ theorem saturating_call_heap (hp : Heap Addr) {w : World} (h : WF w) (R : Rep hp
   rw [hring]; exact R2
 
 end Tromp.C14Ring
+
+namespace Tromp.C14Ring
+open Tromp Tromp.Ring World
+
+/-! ### fourth worked instance: destruction of a mock object (`~expectations` → `decommission`: every element `unlink()`ed) -/
+
+theorem killMock_mocks (w : World) (o : Nat) (m : Mock) :
+    (w.killMock o m).1.mocks = upd w.mocks o { m with alive := false, active := fun _ => [], saturated := fun _ => [] } ∧
+    (w.killMock o m).1.nextO = w.nextO := by
+  have hd := killMock_fold_detached m (List.range nFns).reverse w []
+  unfold World.killMock
+  simp only
+  generalize ((List.range nFns).reverse.foldl (fun (acc : World × List Ev) f =>
+        let (w, evs) := acc
+        let (w1, e1) := w.decommission (m.active f)
+        let (w2, e2) := w1.decommission (m.saturated f)
+        (w2, evs ++ e1 ++ e2)) (w, [])) = wk at hd ⊢
+  obtain ⟨w', evs⟩ := wk
+  simp only [setMock]
+  exact ⟨by rw [hd.mocks], hd.nextO⟩
+
+/-- the elements of the dying object's lists, in the order `~expectations` visits them. -/
+def killed (m : Mock) : List Nat := allListed m (List.range nFns).reverse
+
+/-- the ring script of the destruction: every element of every list of the object is unlinked. -/
+def killScript (m : Mock) : List (Ring.Op Addr) := (killed m).map (fun e => Ring.Op.unlink (Addr.exp e))
+
+theorem run_unlinks_fst (a : Abs Addr) (hp : Heap Addr) (es : List Nat) :
+    (run (a, hp) (es.map (fun e => Ring.Op.unlink (Addr.exp e)))).1 =
+      { a with lists := fun hd => es.foldl (fun l e => l.erase (Addr.exp e)) (a.lists hd) } := by
+  induction es generalizing a hp with
+  | nil => rfl
+  | cons e es ih =>
+    simp only [List.map_cons, Ring.run, List.foldl_cons]
+    rw [ih]; rfl
+
+theorem foldl_erase_disjoint (es : List Nat) (l : List Addr) (h : ∀ e ∈ es, Addr.exp e ∉ l) :
+    es.foldl (fun l e => l.erase (Addr.exp e)) l = l := by
+  induction es generalizing l with
+  | nil => rfl
+  | cons e es ih =>
+    simp only [List.foldl_cons]
+    rw [List.erase_of_not_mem (h e (by simp))]
+    exact ih l (fun e' he' => h e' (by simp [he']))
+
+theorem foldl_erase_all (es : List Nat) (l : List Nat) (hnd : l.Nodup) (hsub : ∀ x ∈ l, x ∈ es) :
+    es.foldl (fun l e => l.erase (Addr.exp e)) (l.map Addr.exp) = [] := by
+  induction es generalizing l with
+  | nil => cases l with
+    | nil => rfl
+    | cons x l => exact absurd (hsub x (by simp)) (by simp)
+  | cons e es ih =>
+    simp only [List.foldl_cons]
+    rw [← map_exp_filter l e hnd]
+    refine ih _ (hnd.filter _) ?_
+    intro x hx
+    have hx' := List.mem_filter.mp hx
+    have hne : x ≠ e := by simpa using hx'.2
+    rcases List.mem_cons.mp (hsub x hx'.1) with h | h
+    · exact absurd h hne
+    · exact h
+
+theorem legalRun_unlinks (a : Abs Addr) (es : List Nat) (h : ∀ e ∈ es, Addr.exp e ∉ a.heads) :
+    legalRun a (es.map (fun e => Ring.Op.unlink (Addr.exp e))) := by
+  induction es generalizing a with
+  | nil => trivial
+  | cons e es ih =>
+    refine ⟨h e (by simp), ih _ (fun e' he' => ?_)⟩
+    show Addr.exp e' ∉ a.heads
+    exact h e' (by simp [he'])
+
+/-- **destruction of a mock object, on the heap**: after every element of its lists has been unlinked (the translated
+    `decommission` loop, `Tie/Decommission.lean`), the heap represents the lists of the world after the `kill` step — the
+    dead object's lists empty, every other list untouched — whatever expectations, in whatever state, the object had. -/
+theorem kill_heap (hp : Heap Addr) {w : World} (h : WF w) (R : Rep hp (ringOf w)) (o : Nat) (m : Mock)
+    (hm : w.mocks o = some m) :
+    Rep (run (ringOf w, hp) (killScript m)).2 (ringOf (w.killMock o m).1) := by
+  obtain ⟨hmocks, hnext⟩ := killMock_mocks w o m
+  have hnothead : ∀ e, Addr.exp e ∉ (ringOf w).heads := by
+    intro e hin
+    obtain ⟨o', f', m', _, ha⟩ := mem_headsOf hin
+    rcases ha with ha | ha <;> cases ha
+  have R' := rep_run R (killScript m) (legalRun_unlinks _ _ (fun e _ => hnothead e))
+  have hheads : headsOf (w.killMock o m).1 = headsOf w := by
+    refine headsOf_congr hnext (fun o' => ?_)
+    rw [hmocks]
+    by_cases ho : o' = o
+    · subst ho; simp [upd, hm]
+    · simp [upd, ho]
+  refine rep_congr R' ?_ ?_
+  · rw [killScript, run_unlinks_fst]; exact hheads
+  · intro hd hhd
+    rw [killScript, run_unlinks_fst] at hhd ⊢
+    change hd ∈ headsOf w at hhd
+    obtain ⟨o', f', m', hm', ha⟩ := mem_headsOf hhd
+    have hf' : f' < nFns := by
+      -- heads only exist for the declared mock functions
+      unfold headsOf at hhd
+      obtain ⟨o2, _, hin⟩ := List.mem_flatMap.mp hhd
+      cases hm2 : w.mocks o2 with
+      | none => rw [hm2] at hin; simp at hin
+      | some m2 =>
+        rw [hm2] at hin
+        obtain ⟨f2, hf2, hor⟩ := mem_headsOfMock hin
+        rcases ha with rfl | rfl <;> rcases hor with hor | hor <;> cases hor <;> exact hf2
+    have hmem : ∀ x, (x ∈ m.active f' ∨ x ∈ m.saturated f') → x ∈ killed m := by
+      intro x hx
+      unfold killed allListed
+      refine List.mem_flatMap.mpr ⟨f', by simp [List.mem_range.mpr hf'], ?_⟩
+      exact List.mem_append.mpr hx
+    by_cases ho : o' = o
+    · subst ho
+      rw [hm] at hm'; cases hm'
+      rcases ha with rfl | rfl
+      · simp only [ringOf, listsOf, hmocks, upd, if_true, List.map_nil, hm]
+        exact (foldl_erase_all _ _ (h.actNodup o' m f' hm) (fun x hx => hmem x (Or.inl hx))).symm
+      · simp only [ringOf, listsOf, hmocks, upd, if_true, List.map_nil, hm]
+        exact (foldl_erase_all _ _ (h.satNodup o' m f' hm) (fun x hx => hmem x (Or.inr hx))).symm
+    · -- another object's lists: none of the killed elements is on them
+      have hdisj : ∀ e ∈ killed m, ∀ g, e ∉ m'.active g ∧ e ∉ m'.saturated g := by
+        intro e he g
+        unfold killed allListed at he
+        obtain ⟨f0, _, hin⟩ := List.mem_flatMap.mp he
+        have hin' := List.mem_append.mp hin
+        have hx : ∃ x, w.exps e = some x ∧ x.obj = o := by
+          rcases hin' with hin' | hin'
+          · obtain ⟨x, hx, _, hob, _⟩ := h.act o m f0 e hm hin'; exact ⟨x, hx, hob⟩
+          · obtain ⟨x, hx, _, hob, _⟩ := h.sat o m f0 e hm hin'; exact ⟨x, hx, hob⟩
+        obtain ⟨x, hx, hob⟩ := hx
+        constructor
+        · intro hc
+          have := (h.listed_only_at_home e x hx o' m' g hm' (Or.inl hc)).1
+          exact ho (this.trans hob)
+        · intro hc
+          have := (h.listed_only_at_home e x hx o' m' g hm' (Or.inr hc)).1
+          exact ho (this.trans hob)
+      rcases ha with rfl | rfl
+      · simp only [ringOf, listsOf, hmocks, upd, ho, if_false, hm']
+        refine (foldl_erase_disjoint _ _ (fun e he hc => ?_)).symm
+        obtain ⟨k, hk, hek⟩ := List.mem_map.mp hc
+        cases hek; exact (hdisj e he f').1 hk
+      · simp only [ringOf, listsOf, hmocks, upd, ho, if_false, hm']
+        refine (foldl_erase_disjoint _ _ (fun e he hc => ?_)).symm
+        obtain ⟨k, hk, hek⟩ := List.mem_map.mp hc
+        cases hek; exact (hdisj e he f').2 hk
+
+end Tromp.C14Ring
